@@ -45,7 +45,7 @@ def run(ctx):
     ctx.add('L1.no-leak-primitives', 'workspace', leaks[0][1]['sp'][0] if leaks else '', not leaks,
             'mem::forget / ManuallyDrop / leak / into_raw used: %s' % [(p, loc(n)) for p, n, c in leaks][:3])
     it = f.items.get(C.loop_path)
-    by_value = it is not None and it['inputs'] and it['inputs'][0] == C.driver_struct.replace('ldap3::', '')
+    by_value = it is not None and it['inputs'] and it['inputs'][0] == C.driver_struct
     ctx.add('L1.loop-takes-driver-by-value', C.loop_path, '', by_value, 'the driver loop borrows the driver: its senders survive the loop\'s exit')
 
     # ---- L2 loop exits
